@@ -26,12 +26,17 @@ func ConvertRequest(ctx *fasthttp.RequestCtx, r *http.Request, forServer bool) e
 
 	r.Method = b2s(ctx.Method())
 	r.Proto = b2s(ctx.Request.Header.Protocol())
-	if r.Proto == "HTTP/2" {
-		r.ProtoMajor = 2
+	if major, minor, ok := http.ParseHTTPVersion(r.Proto); ok {
+		r.ProtoMajor = major
+		r.ProtoMinor = minor
 	} else {
-		r.ProtoMajor = 1
+		if r.Proto == "HTTP/2" {
+			r.ProtoMajor = 2
+		} else {
+			r.ProtoMajor = 1
+		}
+		r.ProtoMinor = 1
 	}
-	r.ProtoMinor = 1
 	r.ContentLength = int64(len(body))
 	r.RemoteAddr = ctx.RemoteAddr().String()
 	r.Host = b2s(ctx.Host())
